@@ -124,10 +124,12 @@ def build(case):
 def _fit_did_not_converge(pyhf, fam, case, tested, data, fdata, model, init, bounds, fixed, mubh, muh):
     """Diagnosis of a closed-form mismatch.  True only if (a) the statistic returned bit-for-bit the points that
     the direct mle.fit / mle.fixed_poi_fit calls with the same arguments return, and (b) one of those direct fits
-    ends above the closed-form optimum by more than the optimiser tolerance."""
+    ends above the objective *at the closed-form optimum* (evaluated by the same twice_nll) by more than the
+    optimiser tolerance."""
     import numpy as np
 
     tol_opt = 2e-4 if case["optimizer"] == "scipy" else 2e-3
+    tl = pyhf.tensorlib
     try:
         pu, vu = pyhf.infer.mle.fit(data, model, init, bounds, fixed, return_fitted_val=True)
         pc, vc = pyhf.infer.mle.fixed_poi_fit(tested, data, model, init, bounds, fixed, return_fitted_val=True)
@@ -136,11 +138,24 @@ def _fit_did_not_converge(pyhf, fam, case, tested, data, fdata, model, init, bou
     pu, pc = backends.tonp(pu).astype(float), backends.tonp(pc).astype(float)
     if not (np.array_equal(pu, np.asarray(muh)) and np.array_equal(pc, np.asarray(mubh))):
         return False
-    ru, nu = fam.unconditional(fdata)
-    rc, nc = fam.conditional(tested, fdata)
+    ru, _ = fam.unconditional(fdata)
+    rc, _ = fam.conditional(tested, fdata)
     if ru is None or rc is None:
         return False
-    return float(backends.tonp(vu)) > 2 * nu + tol_opt or float(backends.tonp(vc)) > 2 * nc + tol_opt
+    pi = model.config.poi_index
+    others = [i for i in range(model.config.npars) if i != pi]
+
+    def at(ref_pt, like):
+        vec = [float(v) for v in like]
+        vec[pi] = float(ref_pt[0])
+        for i, v in zip(others, list(ref_pt)[1:]):  # families with a nuisance list it after the POI
+            vec[i] = float(v)
+        return float(backends.tonp(pyhf.infer.mle.twice_nll(tl.astensor(vec), tl.astensor(data), model)).reshape(-1)[0])
+
+    try:
+        return float(backends.tonp(vu)) > at(ru, pu) + tol_opt or float(backends.tonp(vc)) > at(rc, pc) + tol_opt
+    except Exception:  # noqa: BLE001
+        return False
 
 
 def run_case(case, ctx):
@@ -260,7 +275,7 @@ def run_case(case, ctx):
                     ctx.err("closed_form", 0.0 if ok else float("inf"))
                     if not ok:
                         ctx.fail(f"{sig}/closed_form/{case['family']}/near_seam", got=qv, raw=rraw)
-                elif abs(qv - qr) > tol and not held and _fit_did_not_converge(pyhf, fam, case, tested, data, fdata, model, init, bounds,
+                elif abs(qv - qr) > tol and _fit_did_not_converge(pyhf, fam, case, tested, data, fdata, model, init, bounds,
                                                                    fixed, mubh, muh):
                     # root cause is the optimiser (recorded under C05), not the test-statistic logic: the
                     # statistic returns exactly the points the direct fits return, and those miss the optimum
